@@ -390,13 +390,13 @@ func StreamFooter(indexSize int64, flags0, check byte) []byte {
 
 // BlockHeaderSpec allows building legal and deliberately illegal block headers.
 type BlockHeaderSpec struct {
-	Comp, Unc  int64 // -1 = absent
-	FlagsOr    byte  // extra bits or-ed into the flags byte
-	FilterID   uint64
-	PropsSize  uint64
-	Props      []byte
-	ExtraPad   int  // additional groups of four zero bytes
-	PadByte    byte // value of padding bytes (0 legal)
+	Comp, Unc int64 // -1 = absent
+	FlagsOr   byte  // extra bits or-ed into the flags byte
+	FilterID  uint64
+	PropsSize uint64
+	Props     []byte
+	ExtraPad  int  // additional groups of four zero bytes
+	PadByte   byte // value of padding bytes (0 legal)
 }
 
 func LZMA2BlockHeader(comp, unc int64, dictCode byte) BlockHeaderSpec {
@@ -486,4 +486,73 @@ func BuildXZ(check byte, blocks []BlockSpec) []byte {
 	out = append(out, idx...)
 	out = append(out, StreamFooter(int64(len(idx)), 0, check)...)
 	return out
+}
+
+// WalkLZMA2 lists the chunks of a chunk sequence by following the headers
+// only (no decoding).  It stops after the end chunk.
+func WalkLZMA2(in []byte) (chunks []Chunk, consumed int, err error) {
+	pos := 0
+	for {
+		if pos >= len(in) {
+			return chunks, pos, ErrTruncated
+		}
+		c := in[pos]
+		kind, ok := ChunkKind(c)
+		if !ok {
+			return chunks, pos, fmt.Errorf("ref: invalid LZMA2 control byte %#02x", c)
+		}
+		ch := Chunk{Control: c, Kind: kind, Offset: pos}
+		if c == 0 {
+			return append(chunks, ch), pos + 1, nil
+		}
+		if c < 0x80 {
+			if len(in)-pos < 3 {
+				return chunks, pos, ErrTruncated
+			}
+			n := (int(in[pos+1])<<8 | int(in[pos+2])) + 1
+			ch.Unc, ch.Comp = n, n
+			pos += 3 + n
+		} else {
+			hl := 5
+			if c >= 0xC0 {
+				hl = 6
+			}
+			if len(in)-pos < hl {
+				return chunks, pos, ErrTruncated
+			}
+			ch.Unc = (int(c&0x1F)<<16 | int(in[pos+1])<<8 | int(in[pos+2])) + 1
+			ch.Comp = (int(in[pos+3])<<8 | int(in[pos+4])) + 1
+			pos += hl + ch.Comp
+		}
+		if pos > len(in) {
+			return chunks, pos, ErrTruncated
+		}
+		chunks = append(chunks, ch)
+	}
+}
+
+// WalkXZ follows the structure of a single .xz stream without decoding and
+// returns the chunk kinds of every block.
+func WalkXZ(in []byte) (blocks [][]Chunk, err error) {
+	if len(in) < 12 {
+		return nil, ErrTruncated
+	}
+	cs := CheckSize(in[7] & 0x0F)
+	pos := 12
+	for pos < len(in) && in[pos] != 0 {
+		hs := (int(in[pos]) + 1) * 4
+		pos += hs
+		if pos > len(in) {
+			return blocks, ErrTruncated
+		}
+		ch, n, e := WalkLZMA2(in[pos:])
+		if e != nil {
+			return blocks, e
+		}
+		blocks = append(blocks, ch)
+		pos += n
+		pos += (4 - n%4) % 4
+		pos += cs
+	}
+	return blocks, nil
 }
